@@ -1876,3 +1876,136 @@ func c18R13(c *Ctx, r *Report) {
 	r.Check(guardOK, rule, fn.Name(), "the snapshot is skipped only when all later arguments are simple operands", c.pos(snapPos),
 		"the copy of a by-value aggregate argument is skipped under `"+guardMsg+"`, which does not guarantee that no later argument can run code that changes the argument's place")
 }
+
+// ---- C11.R16: a value stored into an optional place is converted to the payload type ---------------------------
+
+func init() {
+	lateInits = append(lateInits, func() {
+		props["C11"].Quick = append(props["C11"].Quick, c11R16)
+		props["C11"].Explanation += " (R16) coerceValueForAssign converts a non-optional value that is stored into an optional place to the optional's payload type (the assignment `o = a` inside the branch that narrowed `o: i64?` to i64 stores an i32)."
+	})
+}
+
+func c11R16(c *Ctx, r *Report) {
+	const rule = "C11.R16"
+	r.Describe(rule, "mir/gen.coerceValueForAssign: the target type handed to widenNumericValue is a variable that is assigned `<opt>.Inner` under a type assertion of the destination type to *types.OptionalType")
+	fn := c.LookupFn(pkgMIRGen, "(*functionBuilder).coerceValueForAssign")
+	widen := c.LookupFn(pkgMIRGen, "(*functionBuilder).widenNumericValue")
+	if !r.Anchor(rule, fn != nil && widen != nil && fn.Decl.Body != nil, "mir/gen coerceValueForAssign / widenNumericValue") {
+		return
+	}
+	info := fn.Info()
+	to := fn.ParamNamed("toType")
+	if !r.Anchor(rule, to != nil, "coerceValueForAssign(…, toType, …)") {
+		return
+	}
+	n := 0
+	for _, cl := range callsIn(fn.Decl.Body, false) {
+		if !isCallTo(info, cl, widen.Obj) || len(cl.Args) < 3 {
+			continue
+		}
+		n++
+		target := objOf(info, cl.Args[2])
+		good := false
+		walkWithStack(fn.Decl.Body, func(x ast.Node, stack []ast.Node) bool {
+			as, ok := x.(*ast.AssignStmt)
+			if !ok || len(as.Lhs) != 1 || len(as.Rhs) != 1 || objOf(info, as.Lhs[0]) != target || target == nil {
+				return true
+			}
+			sel, ok := ast.Unparen(as.Rhs[0]).(*ast.SelectorExpr)
+			if !ok || sel.Sel.Name != "Inner" {
+				return true
+			}
+			for _, a := range stack {
+				ifs, isIf := a.(*ast.IfStmt)
+				if !isIf || ifs.Init == nil {
+					continue
+				}
+				init, isAs := ifs.Init.(*ast.AssignStmt)
+				if !isAs || len(init.Rhs) != 1 || objOf(info, init.Lhs[0]) != objOf(info, sel.X) {
+					continue
+				}
+				if ta, isTA := ast.Unparen(init.Rhs[0]).(*ast.TypeAssertExpr); isTA && mentionsVar(info, ta.X, to) {
+					if nt := namedOf(info.TypeOf(ta.Type)); nt != nil && nt.Obj().Name() == "OptionalType" {
+						good = true
+					}
+				}
+			}
+			return true
+		})
+		r.Check(good && target != to, rule, fn.Name(), "the conversion target of an optional destination is its payload type", c.pos(cl.Pos()),
+			"a value stored into an optional place is 'converted' to the optional type itself, which is no primitive, so nothing happens: `let o: i64? = pick(); if o != none { o = a; io::Println(o); }` with an i32 a == -5 stored four bytes into the eight-byte payload and printed 4294967291")
+	}
+	r.Floor(rule, n, 1, "widenNumericValue calls in coerceValueForAssign")
+}
+
+// ---- C10.R11: literal bounds of a range are fitted to the type of the typed bound --------------------------------
+
+func init() {
+	lateInits = append(lateInits, func() {
+		props["C10"].Quick = append(props["C10"].Quick, c10R11)
+		props["C11"].Quick = append(props["C11"].Quick, c10R11)
+		props["C10"].Explanation += " (R11) the type checker's clause for range expressions, which lets untyped literal bounds take the type of a typed bound, passes the bounds to a function that reaches checkFitness: `for i in -1..n` with an unsigned n is rejected instead of starting at 4294967295."
+	})
+}
+
+func c10R11(c *Ctx, r *Report) {
+	const rule = "C10.R11"
+	r.Describe(rule, "typechecker: every type-switch clause for *ast.RangeExpr that checks the Start and End expressions without an expected type also calls a function that reaches checkFitness (within two calls)")
+	fit := c.LookupFn(pkgTC, "checkFitness")
+	chk := c.LookupFn(pkgTC, "checkExpr")
+	if !r.Anchor(rule, fit != nil && chk != nil, "typechecker checkFitness / checkExpr") {
+		return
+	}
+	n := 0
+	for _, fn := range c.AllFns(pkgTC) {
+		if fn.Decl.Body == nil {
+			continue
+		}
+		info := fn.Info()
+		ast.Inspect(fn.Decl.Body, func(x ast.Node) bool {
+			ts, ok := x.(*ast.TypeSwitchStmt)
+			if !ok {
+				return true
+			}
+			for _, cc := range caseClauses(ts.Body) {
+				isRange := false
+				for _, t := range caseTypes(info, cc) {
+					if nt := namedOf(t); nt != nil && nt.Obj().Name() == "RangeExpr" {
+						isRange = true
+					}
+				}
+				if !isRange {
+					continue
+				}
+				body := &ast.BlockStmt{List: cc.Body}
+				checksBounds := false
+				fits := false
+				for _, cl := range callsIn(body, true) {
+					f := callee(info, cl)
+					if f == nil {
+						continue
+					}
+					if f == chk.Obj && len(cl.Args) >= 3 {
+						if sel, ok := ast.Unparen(cl.Args[2]).(*ast.SelectorExpr); ok && (sel.Sel.Name == "Start" || sel.Sel.Name == "End") {
+							checksBounds = true
+						}
+					}
+					if f == fit.Obj || reachesAdd(c, f, fit.Obj, 0) {
+						if f != chk.Obj {
+							fits = true
+						}
+					}
+				}
+				if !checksBounds {
+					continue
+				}
+				n++
+				r.Check(fits, rule, fn.Name(), "case *ast.RangeExpr fits literal bounds to the bound type", c.pos(cc.Pos()),
+					"the bounds of a range are checked without an expected type and an untyped literal bound silently takes the type of the other bound: `let n: u32 = lim(); for i in -1..n { … }` is accepted, -1 becomes 4294967295 and the loop body never runs")
+			}
+			return true
+		})
+	}
+	r.Floor(rule, n, 1, "range-expression clauses that check their bounds")
+}
